@@ -11,7 +11,14 @@ Oracle (ground truth = the simulated radio's register file, CE pin and SPI log):
                 the object last established.
   exit          after every __exit__: CONFIG.PWR_UP == 0 and CE low.
 Counterexamples are minimised by re-execution (calls are dropped while the same violation
-persists) so that the signature names only the calls that matter.
+persists) so that the signature names only the calls that matter:
+  C09/<clause>:<class of X>:<register groups failing in the minimal counterexample>:<op class>
+  op class = the remaining calls as own:<name>(<argument class>) (made through X) or
+  other:<name>(...) (made through another object), "-" if no call is needed and always "-" for
+  `leak` (a defect of __enter__ itself, whichever foreign call makes it visible).
+A block sequence is cut at its first violation.  Class combinations: 7 distinct pairs and 7 distinct
+triples of the five objects (the two RF24 objects are interchangeable); the quick tier runs all
+pairs and 4 of the triples.
 """
 import copy
 
@@ -295,8 +302,12 @@ class Explorer:
                     continue  # a block sequence is cut at its first violation
                 nt2 = nt_flag or restored
                 if nt2:
-                    rep.nt("%s|%s" % ("".join(c[0] + c[-1] for c in self.classes), ";".join(
-                        "%d:%s" % (y, ",".join(str(self._op_index(y, op)) for op in o)) for y, o in b2)))
+                    # distinct non-trivial cases are keyed by the first two blocks (the ones that make calls); deeper
+                    # block sequences are only counted
+                    if level < 2:
+                        rep.nt("%s|%s" % ("".join(c[0] + c[-1] for c in self.classes), ";".join(
+                            "%d:%s" % (y, ",".join(str(self._op_index(y, op)) for op in o)) for y, o in b2)))
+                    rep.part("blocks", nontrivial=1)
                 if len(plan) > 1:
                     k = (level, tuple(fe2), canon(st2))
                     if k in self.seen:
@@ -400,7 +411,8 @@ def run(tier, seed, rep, only=None):
              "sequence. States after a block that are bit-identical (radio, all objects' attributes, remembered configurations) "
              "are merged. Oracle at every entry and exit, see module docstring. evaluations = executed blocks (each ends one "
              "block sequence); non-trivial = block sequences in which some (re-)entry found the radio in another configuration "
-             "than the object's own.",
+             "than the object's own (distinct ones keyed by their first two blocks; parts.blocks.nontrivial counts all). A block "
+             "sequence is cut at its first violation.",
         bounds=b,
         trusted_base=["vf/sim.py (nRF24L01+ register file, CE pin, SPI log)", "vf/ref/regs.py (register names / groups only)"],
         assumptions=["objects are constructed up front in slot order, outside any `with` block (the network / mesh constructors and "
